@@ -472,7 +472,40 @@ def replay_op(ctx, prog, op, b, s, inf, claim, label):
         call = f"c.{fn}({', '.join(rargs)}); std::mem::forget(c)"
     else:
         return False
-    # the reply the engine assumed: an error reply makes synchronous calls return without blocking
+    # expected bytes: the method the expectation table prescribes for these concrete arguments, encoded by amq-protocol
+    fts = prog.types.field_types(f'amq_protocol::protocol::{cls.lower()}::{meth}') or []
+    lits = []
+    for (fname, ft) in fts:
+        spec = fields[fname]
+        if spec[0] == 'const':
+            v = spec[1]
+            lits.append(f"{fname}: {('true' if v else 'false') if isinstance(v, bool) else v}")
+        elif spec[0] == 'str':
+            lits.append(f"{fname}: {rs_str(spec[1])}.into()")
+        elif spec[0] == 'empty-table':
+            lits.append(f"{fname}: Default::default()")
+        else:
+            nm_ = spec[1]
+            if nm_ in b.tables:
+                lits.append(f"{fname}: Default::default()")
+            else:
+                e = b.h[nm_]
+                if z3.is_bool(e):
+                    lits.append(f"{fname}: {'true' if nm.b(e) else 'false'}")
+                elif e.sort() == StrSort:
+                    lits.append(f"{fname}: {rs_str(nm.s(e))}.into()")
+                else:
+                    lits.append(f"{fname}: {nm.i(e)}")
+    want_frame = f"AMQPFrame::Method({cid}, AMQPClass::{cls}(amq_protocol::protocol::{cls.lower()}::AMQPMethod::{meth}(amq_protocol::protocol::{cls.lower()}::{meth} {{ {', '.join(lits)} }})))"
+    # expected behaviour for these concrete values
+    want_panic = False
+    if recv == 'DeliveryV':
+        want_panic = nm.i(b.h['delivery.chan']) != cid
+    elif 'd.chan' in b.h:
+        want_panic = nm.i(b.h['d.chan']) != cid
+    elif fn == 'queue_declare_nowait':
+        want_panic = nm.s(b.h['queue']) == ''
+    want_nothing = want_panic or (fn == 'cancel' and nm.b(sym('consumer.cancelled', z3.BoolSort())))
     test = API_PRELUDE + f'''
 fn mk_delivery(chan: u16, tag: u64) -> crate::Delivery {{
     let (_t, d) = crate::Delivery::new(chan, amq_protocol::protocol::basic::Deliver {{ consumer_tag: "t".into(), delivery_tag: tag, redelivered: false, exchange: "".into(), routing_key: "".into() }}, Vec::new(), Default::default());
@@ -485,13 +518,16 @@ fn verif_replay_c12() {{
     let _ = tx.send(Err(crate::Error::ClientException));
     let _ = _otx.send(Err(crate::Error::ClientException));
     let r = std::panic::catch_unwind(std::panic::AssertUnwindSafe(|| {{ {pre} let _ = {call}; }}));
-    println!("VERIF-OBS panicked={{}}|{{}}", r.is_err(), frames_of(&rx));
+    let got = raw_of(&rx);
+    let want: Vec<Vec<u8>> = if {'true' if want_nothing else 'false'} {{ vec![] }} else {{ vec![enc(&{want_frame})] }};
+    if r.is_err() != {'true' if want_panic else 'false'} || got != want {{
+        println!("VERIF-REPLAY-VIOLATION api-method:{name} panicked={{}} got={{:?}} want={{:?}}", r.is_err(), got, want);
+    }} else {{ println!("VERIF-REPLAY-OK"); }}
     std::mem::forget(ch); std::mem::forget(other);
 }}
 '''
-    expected = f"panicked={'true' if label == 'PANIC' else 'false'}|" + engine_frames(prog, inf, nm)
-    ctx.report_obs(f"api-method:{name}", f"{name}: the method handed to the I/O thread differs from what the arguments describe ({label})", {'operation': name, 'engine_observation': expected}, test, expected,
-                   inject_into='src/io_loop/channel_handle.rs')
+    ctx.report(f"api-method:{name}", f"{name}: the method handed to the I/O thread differs from what the arguments describe ({label})", {'operation': name, 'expected_frame': want_frame, 'expected_panic': want_panic}, test,
+               inject_into='src/io_loop/channel_handle.rs', profiles=('dev',))
     return True
 
 
